@@ -405,10 +405,11 @@ def _check_funcfl(m, cls):
     Z, mass, a, lat = eamtab.metadata(m, el)
     if t["title"] != m["title"]:
         v.append(("funcfl:title", "title %r, given %r" % (t["title"], m["title"])))
-    if t["Z"] != Z or abs(t["mass"] - mass) > 1.0000001e-6 or abs(t["a"] - a) > 1.0000001e-6 or t["lattice"] != lat:
+    near = lambda x, y: abs(x - y) <= 4 * 2.3e-16 * abs(y)      # noqa: E731  (the header is free format: nothing forces rounding)
+    if t["Z"] != Z or not near(t["mass"], mass) or not near(t["a"], a) or t["lattice"] != lat:
         v.append(("funcfl:metadata", "(%r %r %r %r) expected (%r %r %r %r)" % (t["Z"], t["mass"], t["a"], t["lattice"], Z, mass, a, lat)))
-    if t["nrho"] != nrho or t["nr"] != nr or abs(t["drho"] - drho) > 1.0000001e-6 or abs(t["dr"] - dr) > 1.0000001e-6 \
-            or abs(t["cutoff"] - dr * (nr - 1)) > 1.0000001e-6:
+    if t["nrho"] != nrho or t["nr"] != nr or not near(t["drho"], drho) or not near(t["dr"], dr) \
+            or not near(t["cutoff"], dr * (nr - 1)):
         v.append(("funcfl:header_grid", "header %r %r %r %r %r does not describe the grid tabulated (%r, %r, %r, %r, cutoff %r)\n%s" % (
             t["nrho"], t["drho"], t["nr"], t["dr"], t["cutoff"], nrho, drho, nr, dr, dr * (nr - 1), ctx)))
     for i, w in enumerate(embs):
